@@ -244,9 +244,12 @@ def features(c, data, text, st):
         st["nonzero_deltas"] += sum(1 for g in groups for d in g["deltas"] if int(d["delta"]["m"]) != 0)
         st["mixed_commodity_and_none"] += sum(1 for g in groups if {bool(x["comm"]) for x in g["rows"]} == {True, False})
         st["multibyte_commodity"] += sum(1 for g in groups if any(any(ord(ch) > 127 for ch in x["comm"]) for x in g["rows"]))
+        pos = 2 if k == "balgrp" else 0
         for g in groups:      # a block whose account names do not start in one column: a figure exceeded its width
-            cols = {len(l) - len(x["acc"]) for x in g["rows"] for l in lines if l.endswith("  " + x["acc"]) and l.startswith(" " * 9)}
+            n = len(g["rows"])
+            cols = {len(l) - len(x["acc"]) for x, l in zip(g["rows"], lines[pos + 2:pos + 2 + n])}
             st["blocks_with_figure_wider_than_column"] += len(cols) > 1
+            pos += 2 + ((n + 1 + len(g["deltas"])) if n else 0)
     st["wide_figures"] += sum(1 for l in lines for tok in l.split() if len(tok) >= 18 and tok.lstrip("-").replace(".", "").isdigit())
     key = "%d,%d" % (c["smin"], c["smax"])
     st["scales"][key] = st["scales"].get(key, 0) + 1
